@@ -28,6 +28,10 @@ CHECKS = {
          "exhaustive enumeration of bounded value alphabets on the real writer/parser/serialiser; round-trip identity"),
  "C15": ("all token sequences <= L over a 30-token alphabet and all ordered ledgers <= k events over a 7-magnitude alphabet at 5 calendar positions through parse->validate->calculate->format under catch_unwind in watchdog-guarded child processes; CLI fault menu (one process per cell); validator truth table",
          "exhaustive enumeration of bounded input sequences and of a fault menu on the real code; no panic/abort/hang, atomic failure"),
+ "C18": ("every multiset of <= k rows over a 24-row Schwab alphabet x all row orders x all date-disjoint cuts, converted by the real converter and compared with a reference row->line map; output parsed by an independent recogniser and by the tool; CLI convert|report",
+         "exhaustive enumeration of bounded row sequences x all row orders x all chunk cuts on the real converter vs reference map"),
+ "C19": ("all 4096 subsets of vest-entry offsets -9..+2 x 5 entry-kind patterns x symbol case x 5 deposit dates, converted by the real converter and compared with a five-line reference look-up",
+         "exhaustive enumeration of award-file shapes on the real converter vs reference look-up"),
  "C12": ("edges prefix -> prefix+suffix: every accepted prefix x every continuation of <= k events dated T+31/T+32/T+45; earlier disposals and year totals unchanged, refusals caused by appended dates only",
          "exhaustive enumeration of prefix/continuation edges of the bounded ledger graph on the real code"),
 }
